@@ -672,6 +672,7 @@ func c15CheckFilesOps(c *Cfg, fsz []c15File) modzip.CheckedFiles {
 	}
 	c.Count(fmt.Sprintf("files/sizeerr=%v nomod=%v", cf.SizeError != nil, cf.NoModError != nil))
 	c.Case("files "+line, len(cf.Valid) >= 2 || len(cf.Invalid) > 0)
+	c15OrderPredicate(c, fsz, cf, words)
 	return cf
 }
 
